@@ -5,7 +5,10 @@ single-item shape the rendered note, put under a title line, denotes a note equa
 body, own metadata, dates if it has a ZID, priority if not done/cancelled).
 Binding (Trace_Page!VerdictRT): for every page, each real Note's to_string() must equal
 RenderNote of the note PageSem expects, and the page "# T / blank / emitted texts" compiled by
-the real compiler must give PageSem!Notes(Page2(page)) on exactly the fields the property names."""
+the real compiler must give PageSem!Notes(Page2(page)) on exactly the fields the property names.
+Through the index (harness/emit.py): for pages whose items all carry ZIDs, the ungrouped selection of all notes
+(swog.execute) and the refreshed saved-query page (`zorg edit q.zoq`) must consist of exactly those texts, a second
+refresh must change nothing, and the compiled .zoq page must give the notes TLC approved."""
 from __future__ import annotations
 
 import random
@@ -29,6 +32,7 @@ def run(ctx):
     chosen = items if not ctx.quick else pc.stratified_items(items, rng, 400)
     cases = [(f"item{i}", p, pages.TODAY) for i, p in enumerate(chosen)]
     cases += pc.random_cases(ctx.seed + 12, 150 if ctx.quick else 3000, lines=(6, 40), meta_p=0.35, tag="rt")
+    cases += pc.random_cases(ctx.seed + 112, 60 if ctx.quick else 1500, lines=(3, 30), meta_p=0.35, tag="ix", want_zid=True)
     recs = pages.compile_cases(cases, roundtrip=True)
     recs_ok = [r for r in recs if r.get("mode") == "roundtrip"]
     verdicts = pages.tlc_verdicts(recs, ctx, "c12")
@@ -63,14 +67,31 @@ def run(ctx):
             ctx.violation(f"C12: note {i}: {f} is {obs!r}, expected {v['exp'][(i, f)]!r}",
                           {"source": r["id"], "page": r["page"], "today": r["today"], "emitted_page": text2,
                            "differences": [{"note": a, "field": b, "expected": v["exp"][(a, b)]} for a, b in sorted(v["bad"])]})
+    # the same texts as zorg emits them through the index: query results and refreshed saved-query pages
+    from .. import emit
+    by_id = {r["id"]: r for r in recs}
+    thru = emit.through_index([r for r in recs if str(r["id"]).startswith("ix")])
+    for o in thru:
+        if o["skipped"]:
+            ctx.add("through_index_skipped")
+            continue
+        ctx.add("through_index_pages")
+        ctx.add("evaluations")
+        for kind, what, text in o["problems"]:
+            r = by_id[o["id"]]
+            ctx.violation(f"C12: {kind}: {what}", {"source": o["id"], "page_text": bp.render_page(r["page"]), "emitted": text,
+                                                   "page": r["page"], "today": r["today"]},
+                          key="zoq-page-no-final-newline" if kind == "zoq-newline" else None)
+    if not ctx.coverage.get("through_index_pages"):
+        ctx.machinery("no page went through the index (query results / saved-query pages were not exercised)")
     ctx.add("traces_validated_against_impl", len(recs_ok))
     ctx.set("distinct_nontrivial", len(seen))
     ctx.set("rule", "pages = states of MC_PageItem (sampled in quick) + random pages; every compiled note is rendered by the real "
                     "Note.to_string and the emitted page recompiled; distinct = distinct item-shape sequences")
     for r in (recs_ok[0], recs_ok[-1]):
         ctx.sample({"page_text": bp.render_page(r["page"])[:400], "emitted_page": r["text2"][:400]})
-    ctx.assume("texts emitted in query results, .zoq pages and by note move are Note.to_string() (checked separately through "
-               "swog.execute / refresh_zoq_file / note move by the index-level checks)")
+    ctx.assume("through the index (swog.execute, `zorg edit q.zoq`) only pages whose items all carry distinct ZIDs are used, so that "
+               "`db create` leaves the page alone; texts of moved notes are judged by C10")
 
 
 def replay(ctx, rep):
